@@ -119,7 +119,9 @@ impl TryFrom<&Value> for Number {
 
 impl Hash for Number {
     fn hash<H: std::hash::Hasher>(&self, state: &mut H) {
-        self.value.to_bits().hash(state);
+        // `0.0` and `-0.0` are equal, they have to hash the same
+        let value = if self.value == 0.0 { 0.0 } else { self.value };
+        value.to_bits().hash(state);
         self.unit.hash(state);
     }
 }
@@ -148,7 +150,10 @@ impl Ord for Number {
         if self.value < other.value {
             Ordering::Less
         } else if self.value == other.value {
-            Ordering::Equal
+            // Same magnitude, the unit decides: only equal numbers compare equal
+            self.unit
+                .map(|unit| &unit.ids)
+                .cmp(&other.unit.map(|unit| &unit.ids))
         } else {
             Ordering::Greater
         }
